@@ -455,7 +455,11 @@ def overlap_case(draw, shard, tier):
     d = D(draw)
     sma, ori, k0, body = draw_target(d)
     mans = draw_overlapping(d, sma, body)
-    return dict(sma=sma, ori=ori, k0=k0, x0=draw_state(d), mans=mans, qs=draw_queries(d, sma, mans, d.int(3, 6), body), body=body)
+    return dict(sma=sma, ori=ori, k0=k0, x0=draw_state(d), mans=mans, qs=draw_queries(d, sma, mans, d.int(3, 6), body), body=body,
+                # how the dates are asked: one Orbit.propagate() each, or all of them on ONE attachment of the orbit to
+                # its propagator (an iteration over the list of dates, in the drawn order or sorted; the propagator
+                # itself asked date after date)
+                route=d.pick("propagate", "propagate", "iter-dates", "iter-sorted", "iter-reversed", "propagator"))
 
 
 def check_overlap(case):
@@ -466,8 +470,22 @@ def check_overlap(case):
     worst = 0.0
     nt = False
     last = max(m["t"] + m.get("dur", 0) for m in case["mans"])
-    for k in case["qs"]:
-        res = orb.propagate(at(epoch, k))
+    route = case.get("route", "propagate")
+    qs = list(case["qs"])
+    if route == "iter-sorted":
+        qs = sorted(qs)
+    elif route == "iter-reversed":
+        qs = sorted(qs, reverse=True)
+    if route.startswith("iter"):
+        answers = list(orb.iter(dates=[at(epoch, k) for k in qs]))
+        if len(answers) != len(qs):
+            raise Violation("iter-dates-count", f"iter(dates=<{len(qs)} dates>) yielded {len(answers)} states")
+    elif route == "propagator":
+        orb.propagate(at(epoch, qs[0]))          # attaches the orbit
+        answers = [orb.propagator.propagate(at(epoch, k)) for k in qs]
+    else:
+        answers = [orb.propagate(at(epoch, k)) for k in qs]
+    for k, res in zip(qs, answers):
         t = k * US
         want, scale = hill.superpose(n, x0, events, t, case["ori"])
         # beyond walks back and forth in time through overlapping maneuvers: allow for each leg
@@ -485,7 +503,7 @@ def check_overlap(case):
                 f"{[m['t'] * US for m in case['mans']]} s ({'/'.join(m['kind'] for m in case['mans'])}): component {j} "
                 f"is {float(v[j])!r}, superposition of the maneuvers' responses gives {float(want[j])!r} ({r:.3g} x tol)",
                 t_us=k, component=j, ratio=r, overlap_active=active)
-    return dict(nt=nt, cls=classes(case), ratio=worst)
+    return dict(nt=nt, cls=classes(case) + [f"route:{route}"], ratio=worst)
 
 
 def maneuver_inside_thrust_arc(facet, case, kind, msg, data):
